@@ -87,4 +87,5 @@ func init() {
 	add("C10", "R10k: every comparison of a row-0 position with the leaf count inside the reviewed existence test (inForest) is strict.", "")
 	add("C06", "R06j = R10k.", "")
 	add("C09", "R09k: the keep flag the from-roots constructor stores with a root depends on its full argument, never a constant.", "")
+	add("C08", "R08i: in the cached-proof update and undo no return is taken on TreeRows(x) == 0 alone (a forest of one leaf has zero rows and a provable leaf).", "")
 }
